@@ -672,3 +672,15 @@ pub fn selftest<C: Check>(c: &C, n: u64, tier: Tier) -> i32 {
         0
     }
 }
+
+/// Run one scenario of the batch by index and print everything about it (debugging aid).
+pub fn one<C: Check>(c: &C, index: u64, tier: Tier) -> i32 {
+    let sc = scenario_for(c, index, base_seed(), tier);
+    println!("scenario: {}", serde_json::to_string(&sc).unwrap());
+    let out = c.run(&sc);
+    println!("trace:\n{}", out.trace);
+    println!("verdict: {:?}", out.verdict);
+    println!("faults: {:?} probes: {:?} nontrivial: {}", out.faults, out.probes, out.nontrivial);
+    cleanup_scratch();
+    0
+}
